@@ -131,7 +131,7 @@ Theorem judge_sound : forall c,
   agrees c = true -> C09_guard c = true ->
   match c with KMerge _ _ | KDrop _ _ | KRow _ _ _ _ => C09_ok c = true | _ => True end.
 Proof.
-  intros c A G. destruct c as [acts os|acts os|a b out send| | | | | | |]; auto.
+  intros c A G. destruct c as [acts os|acts os|a b out send| | | | | | | |]; auto.
   - cbn [agrees] in A. cbn [C09_guard] in G. cbn [C09_ok].
     assert (E : os = snd (m_run m_init acts)).
     { revert A. generalize (snd (m_run m_init acts)). clear G.
